@@ -93,7 +93,7 @@ macro_rules! fp_suite {
                 }
                 // V-boundary families (the Montgomery reduction ends on p-1, p, p+1, 2^256-1, 2^256, 2^256 + small ... before its
                 // conditional subtraction): products in every form, and squares through pow (the dedicated squaring routine)
-                for (i, (xa, xb)) in pool.vpairs.iter().enumerate() {
+                for (i, (xa, xb)) in pool.vpairs.iter().chain(pool.qpairs.iter()).enumerate() {
                     let (fa, fb) = (mk(xa), mk(xb));
                     let (sa, sb) = (fa.to_slice(), fb.to_slice());
                     for form in [FORMS[i % 6], FORMS[(i + 3) % 6]] {
@@ -102,6 +102,13 @@ macro_rules! fp_suite {
                             outs! {"out" => b(&r.to_slice()), "outz" => Value::Bool(r.is_zero()), "outeq" => Value::Bool(Some(r) == <$t>::from_slice(&r.to_slice()))}
                         });
                     }
+                }
+                // exponents whose Montgomery representation is a tiny integer / single limb
+                for (i, v) in pool.lo.iter().enumerate() {
+                    let fe = mk(v);
+                    let fa = mk(&pool.vals[(i * 37) % pool.vals.len()]);
+                    let (sa, se) = (fa.to_slice(), fe.to_slice());
+                    out.call("f.pow", json!({"F": $fstr, "a": b(&sa), "e": b(&se)}), || outs! {"out" => b(&fa.pow(fe).to_slice())});
                 }
                 for xa in pool.vsq.iter() {
                     let fa = mk(xa);
@@ -282,6 +289,14 @@ pub fn run_fq2(a: &Args, out: &mut Out) {
                 out.call("f2.eq", json!({"a": b(&sx), "b": b(&sx)}), || outs! {"out" => Value::Bool(Some(x) == x2)});
             }
             4 => {
+                // the squaring used inside point arithmetic (plain Fq multiplications a0*a1, not the interleaved sum of products):
+                // half of the time the components are a TLC-generated quotient-pattern / V-boundary pair
+                let (x, y) = if rng.gen::<bool>() && !pool.qpairs.is_empty() {
+                    let pa = &pool.qpairs[rng.gen_range(0..pool.qpairs.len())];
+                    let pb = if rng.gen() { &pool.vpairs[rng.gen_range(0..pool.vpairs.len())] } else { &pool.qpairs[rng.gen_range(0..pool.qpairs.len())] };
+                    (fq2_of(&pa.0, &pa.1), fq2_of(&pb.0, &pb.1))
+                } else { (x, y) };
+                let (sx, sy) = (x.to_slice(), y.to_slice());
                 // the squaring used inside point arithmetic, observed through G2 doubling of (x, y, 1)
                 out.call("f2.g2dbl", json!({"x": b(&sx), "y": b(&sy)}), || {
                     let t = G2::new(x, y, Fq2::one());
